@@ -101,7 +101,8 @@ type EvRec struct {
 }
 
 type runner struct {
-	away bool // the target directory is renamed away (tmpdir fault)
+	away       bool // the target directory is renamed away (tmpdir fault)
+	tracerMode int  // 0: full tracer, 1: tracer without the Diagnostics callback, 2: no tracer
 	// the remote source values handed to the builder (by Add calls and by dependency finders), as they were made
 	given    []sourceaddrs.RemoteSource
 	w        *World
@@ -275,6 +276,10 @@ func (r *runner) FetchSourcePackage(ctx context.Context, sourceType string, u *u
 	}
 	if err := writeContent(&r.w.Contents[p.Content], targetDir); err != nil {
 		return ret, err
+	}
+	if len(p.Addr)%2 == 1 {
+		os.MkdirAll(filepath.Join(targetDir, ".git"), 0o755)
+		os.WriteFile(filepath.Join(targetDir, ".git", "HEAD"), []byte("fetched from "+p.Addr), 0o644)
 	}
 	if p.Meta != nil {
 		ret.PackageMeta = sourcebundle.PackageMetaWithGitMetadata(p.Meta[0], p.Meta[1])
@@ -476,6 +481,13 @@ func (r *runner) tracer() *sourcebundle.BuildTracer {
 	}
 }
 
+// tracerWithoutDiagnostics: a caller that watches downloads but not diagnostics
+func (r *runner) tracerWithoutDiagnostics() *sourcebundle.BuildTracer {
+	t := r.tracer()
+	t.Diagnostics = nil
+	return t
+}
+
 // ---- running a build ----
 
 type DiagObs struct {
@@ -602,7 +614,13 @@ type builtBundle struct {
 // a watchdog: a build that does not return within the limit is reported as a
 // timeout (the goroutine is abandoned; the caller is expected to exit soon).
 func runBuild(w *World, ops []OpSpec, target string, faults []Fault, boundary func(string), limit time.Duration) *builtBundle {
+	return runBuildMode(w, ops, target, faults, boundary, limit, 0)
+}
+
+// runBuildMode: tracerMode 1 = a tracer without the Diagnostics callback, 2 = no tracer
+func runBuildMode(w *World, ops []OpSpec, target string, faults []Fault, boundary func(string), limit time.Duration, tracerMode int) *builtBundle {
 	r := newRunner(w, target, faults)
+	r.tracerMode = tracerMode
 	r.boundary = boundary
 	res := &builtBundle{runner: r}
 	done := make(chan struct{})
@@ -614,6 +632,12 @@ func runBuild(w *World, ops []OpSpec, target string, faults []Fault, boundary fu
 			return
 		}
 		ctx := r.tracer().OnContext(context.Background())
+		switch r.tracerMode {
+		case 1:
+			ctx = r.tracerWithoutDiagnostics().OnContext(context.Background())
+		case 2:
+			ctx = context.Background() // no tracer at all
+		}
 		for _, op := range ops {
 			out := runOp(r, b, ctx, op, res)
 			res.obs.Outcomes = append(res.obs.Outcomes, out)
